@@ -196,6 +196,16 @@ func runStop(c *StopCase) *StopObs {
 	case "cancel_handshake":
 		plan.StallAccept = make(chan struct{})
 		at = attempt{l: l, pacing: c.Pacing}
+	case "cancel_query":
+		// the context is cancelled while the replica waits for the answer to its first statement; the
+		// master answers a little later
+		plan.OnQuery = func(n int) {
+			if n == 1 {
+				doCancel()
+				time.Sleep(time.Duration(f.At) * 100 * time.Microsecond)
+			}
+		}
+		at = attempt{l: l, pacing: c.Pacing}
 	case "deadline":
 		var dcancel context.CancelFunc
 		ctx, dcancel = context.WithTimeout(ctx, time.Duration(f.At)*200*time.Microsecond)
